@@ -218,3 +218,33 @@ func ToLibEntry(fr frame.Frame) frame.Frame {
 	}
 	return fr
 }
+
+// UnrepresentableV1ID draws a message id a v1 frame cannot carry: anything above 255, with the values that make
+// narrowing mistakes visible - ids whose low byte, low two bytes or low three bytes look harmless (a zero middle
+// byte, a zero middle pair), single bits, and the full 32-bit range.
+func UnrepresentableV1ID() *rapid.Generator[uint32] {
+	return rapid.OneOf(
+		rapid.Uint32Range(256, 70000),
+		rapid.Uint32Range(256, 1<<24-1),
+		rapid.Uint32Range(1<<24, 1<<32-1),
+		rapid.Custom(func(t *rapid.T) uint32 { // zero bits in the middle, something on top
+			top := rapid.Uint32Range(1, 255).Draw(t, "top")
+			low := rapid.Uint32Range(0, 255).Draw(t, "low")
+			shift := rapid.SampledFrom([]uint{8, 16, 24}).Draw(t, "shift")
+			return top<<shift | low
+		}),
+		rapid.SampledFrom([]uint32{256, 257, 0x100, 0x1FF, 0xFF00, 0x10000, 0x10005, 0x50007, 0xFF00FF, 0x800000, 0xFFFFFF, 0x1000000, 0x1000036, 0xAB0000FF, 0x80000000, 0xFFFFFFFF}),
+	)
+}
+
+// UnrepresentableV2ID draws a message id beyond 24 bits, likewise.
+func UnrepresentableV2ID() *rapid.Generator[uint32] {
+	return rapid.OneOf(
+		rapid.Uint32Range(1<<24, 1<<25),
+		rapid.Uint32Range(1<<24, 1<<32-1),
+		rapid.Custom(func(t *rapid.T) uint32 {
+			return rapid.Uint32Range(1, 255).Draw(t, "top")<<24 | rapid.Uint32Range(0, 255).Draw(t, "low")
+		}),
+		rapid.SampledFrom([]uint32{1 << 24, 1<<24 + 1, 0x1000036, 0x80000000, 0xFF000000, 0xFFFFFFFF}),
+	)
+}
